@@ -17,8 +17,8 @@ type Prod struct {
 
 type Grammar struct {
 	NTs  [][]Prod
-	cnt  [][]int64            // cnt[nt][w]
-	pcnt map[[3]int][]int64   // (nt,prod,kidIdx) -> counts by weight for kids[kidIdx:]
+	cnt  [][]int64          // cnt[nt][w]
+	pcnt map[[3]int][]int64 // (nt,prod,kidIdx) -> counts by weight for kids[kidIdx:]
 	maxW int
 }
 
